@@ -33,6 +33,7 @@ func (g *Group) Wait() error {
 	g.wg.Wait()
 	if g.cancel != nil {
 		g.cancel(g.err)
+		vsched.NoteCancel()
 	}
 	return g.err
 }
@@ -49,6 +50,7 @@ func (g *Group) Go(f func() error) {
 				g.err = err
 				if g.cancel != nil {
 					g.cancel(g.err)
+					vsched.NoteCancel()
 				}
 			})
 		}
